@@ -14,7 +14,7 @@ CHECKS = {
         level='model_checking', design='6/C01',
         technique='explicit-state exploration of all Turing-jump futures on a VM + bounded-exhaustive program/input enumeration + reference-trace conformance',
         text='Every enumerated well-typed sequential program (families E expressions x use positions, S statement sequences, F function '
-             'protocols, A entry binding) is compiled by hidc from the working tree and run on the exploring VM at several word '
+             'protocols incl. explicit re-entry of @is_you, A entry binding, O the same functions called -- hence generated -- in every order) is compiled by hidc from the working tree and run on the exploring VM at several word '
              'sizes; the committed event trace must equal the reference interpreter trace and no monitor may fire on any explored '
              '(including speculative) state.'),
     'C02': dict(
@@ -22,21 +22,23 @@ CHECKS = {
         technique='explicit-state exploration of all Turing-jump futures on a VM + bounded-exhaustive enumeration of try bodies, try histories and ?? uses + reference interpreter that resolves the same choice points by backtracking',
         text='Every enumerated time-travel program (T: single try with all bodies of <=2 atoms incl. preempt/loops/defeat-function calls '
              'x undo/stop x handler bodies; H: ordered pairs/triples of tries in line, in a loop and across calls; Q: ?? operands x use '
-             'positions; P: preemptive defeat functions x continuations, checked and unchecked) is run with every future of every '
+             'positions; P: preemptive defeat functions x continuations, checked and unchecked; R: returns from inside tries; O: you-functions of every kind '
+             'generated in every order) is run with every future of every '
              'Turing jump explored; the committed trace must equal the trace of the backtracking reference interpreter.'),
     'C05': dict(
         level='model_checking', design='6/C05',
         technique='explicit-state exploration of all Turing-jump futures on a VM + exhaustive boundary grids of indices, lengths and divisors + reference-trace conformance',
         text='Each fault family (index x length x element type x storage x access; division/modulo operands over a 7x7 boundary grid in 13 '
-             'syntactic positions; dynamic array lengths incl. negative, oversize and cannot-fit; return of preemptive defeat functions) '
+             'syntactic positions; array lengths incl. negative, oversize and cannot-fit, as run-time values and as compile-time constants; constant '
+             'indices into constant strings and tables; return of preemptive defeat functions) '
              'is executed on the VM; the committed trace must equal the reference trace, which contains the fault flags exactly when '
              'the source semantics raise the fault, at the faulting operation, with nothing after them.'),
     'C09': dict(
         level='model_checking', design='6/C09',
         technique='explicit-state exploration on a VM of one operator program per type pair on an exhaustive boundary-value grid; oracle computed with Python integers and cross-checked against the reference interpreter',
         text='Every operator and cast, in value, branch and !truth_is_defeat position (try/undo, try/stop, inside a defeat function), '
-             'for int/byte operand mixes on all pairs of a boundary grid per word size; unary operators and casts on every 16-bit value '
-             '(thorough).'),
+             'for int/byte operand mixes on all pairs of a boundary grid per word size; family M: one run-time operand against a compile-time '
+             'constant (reference-interpreter oracle); unary operators and casts on every 16-bit value (thorough).'),
     'C17': dict(
         level='model_checking', design='6/C17',
         technique='explicit-state exploration on a VM with memory-entitlement monitor; exhaustive 16-bit value range and length range; stack-size sweep down to one word',
@@ -110,7 +112,8 @@ CHECKS = {
         level='model_checking', design='6/C14',
         technique='metamorphic twin runs (constant form vs. variable form) on the exploring VM over exhaustively enumerated constant expressions on boundary constants; reference interpreter as arbiter',
         text='All operator/cast applications on pairs of boundary constants, nested expressions and chains are compiled with literals in place '
-             '(in four presentations) and with every literal moved into a run-time variable; both must print the same at W 2,3,4; '
+             '(in four presentations), with every literal moved into a run-time variable, and with only the literals at even / odd positions moved; all '
+             'must print the same at W 2,3,4; partly constant expressions with effects or faults are compared with the reference interpreter; '
              'constant forms may be rejected only when the expression divides by zero.'),
     'C16': dict(
         level='model_checking', design='6/C16',
